@@ -516,8 +516,12 @@ func depth() int { return vstat.EnvInt("VERIF_PQ_DEPTH", 3) }
 
 const dbsPerExpr = 4
 
-func genDBs(t *rapid.T) []pq.DB {
-	u := universe()
+// specialUniverse: Prometheus' own names, four labels so that "every series carries every label" stays small.
+func specialUniverse() pq.Universe {
+	return pq.SpecialUniverse().WithLabels("alertname", "le", "job", "instance")
+}
+
+func genDBs(t *rapid.T, u pq.Universe) []pq.DB {
 	dbs := []pq.DB{pq.GenDB(t, "db0", pq.DBOpts{U: u, Shape: "one", FullLabels: true}), pq.GenDB(t, "db1", pq.DBOpts{U: u, Shape: "all", FullLabels: true})}
 	for i := 2; i < dbsPerExpr; i++ {
 		dbs = append(dbs, pq.GenDB(t, fmt.Sprintf("db%d", i), pq.DBOpts{U: u, FullLabels: true}))
@@ -537,11 +541,11 @@ func genDirected(t *rapid.T, known map[string]string, g *pq.Grammar) (string, st
 	case 1:
 		return "(" + j + ") > 0", "directed"
 	case 2:
-		return "(" + j + ") or foo", "directed"
+		return "(" + j + ") or " + g.U.Metrics[0], "directed"
 	case 3:
-		return "bar * on(a, b, c) (" + j + ")", "directed"
+		return g.U.Metrics[1] + " * on(" + strings.Join(g.U.Labels, ", ") + ") (" + j + ")", "directed"
 	case 4:
-		return "bar unless (" + j + ")", "directed"
+		return g.U.Metrics[1] + " unless (" + j + ")", "directed"
 	}
 	return j, "directed"
 }
@@ -576,24 +580,32 @@ func genConstFold(t *rapid.T, _ map[string]string, _ *pq.Grammar) (string, strin
 func drive(t *testing.T, gen func(*rapid.T, map[string]string, *pq.Grammar) (string, string), d int) {
 	rec := vstat.New(t, prop)
 	known := knownMap()
-	g := pq.Strict(universe(), d)
-	if _, ok := known["on-label-neither-side-carries"]; ok {
-		g.ExcludeOnBothLack = true
-	}
-	if _, ok := known["ignoring-label-required"]; ok {
-		g.ExcludeIgnoringGuaranteed = true
-	}
-	if _, ok := known["function-reguarantees-removed-label"]; ok {
-		g.ExcludeFnOverRemoved = true
-	}
-	if _, ok := known["count-values-label-in-without"]; ok {
-		g.ExcludeCountValuesWithout = true
-	}
-	if _, ok := known["group-include-deletes-label"]; ok {
-		g.ExcludeIncludeAbsent = true
+	// one case in five is drawn over Prometheus' own names (ALERTS, alertname, le ...)
+	gs := []*pq.Grammar{pq.Strict(universe(), d), pq.Strict(specialUniverse(), d)}
+	for _, g := range gs {
+		if _, ok := known["on-label-neither-side-carries"]; ok {
+			g.ExcludeOnBothLack = true
+		}
+		if _, ok := known["ignoring-label-required"]; ok {
+			g.ExcludeIgnoringGuaranteed = true
+		}
+		if _, ok := known["function-reguarantees-removed-label"]; ok {
+			g.ExcludeFnOverRemoved = true
+		}
+		if _, ok := known["count-values-label-in-without"]; ok {
+			g.ExcludeCountValuesWithout = true
+		}
+		if _, ok := known["group-include-deletes-label"]; ok {
+			g.ExcludeIncludeAbsent = true
+		}
 	}
 	_, boolKnown := known["const-cmp-bool"]
 	rapid.Check(t, func(rt *rapid.T) {
+		g := gs[0]
+		if rapid.IntRange(0, 4).Draw(rt, "universe") == 4 {
+			g = gs[1]
+			rec.Count("special_names_universe_cases", 1)
+		}
 		before := g.Excluded
 		expr, kind := gen(rt, known, g)
 		if g.Excluded > before {
@@ -611,7 +623,7 @@ func drive(t *testing.T, gen func(*rapid.T, map[string]string, *pq.Grammar) (str
 		if kind == "constfold" {
 			dbs = []pq.DB{{}}
 		} else {
-			dbs = genDBs(rt)
+			dbs = genDBs(rt, g.U)
 		}
 		for _, db := range dbs {
 			c := Case{Kind: kind, Expr: expr, DB: db}
